@@ -7,6 +7,7 @@ import (
 	"math/rand/v2"
 	"reflect"
 	"slices"
+	"sort"
 	"strings"
 
 	"honnef.co/go/tools/pattern"
@@ -47,14 +48,16 @@ func init() {
 const failAtom = "§nomatch§"
 
 type gen struct {
-	rng      *rand.Rand
-	nname    int
-	bound    map[string]bool // names bound on the current success path
-	pool     []string        // names defined inside decoys (candidates for reuse)
-	depth    int
-	canon    map[string]string // name -> canonical text of the subtree it is bound to
-	nilNames []string          // names bound to an absent (nil) optional child
-	noPool   bool              // fresh() must not reuse decoy names
+	rng       *rand.Rand
+	nname     int
+	bound     map[string]bool // names bound on the current success path
+	pool      []string        // names defined inside decoys (candidates for reuse)
+	depth     int
+	canon     map[string]string // name -> canonical text of the subtree it is bound to
+	nilNames  []string          // names bound to an absent (nil) optional child
+	noPool    bool              // fresh() must not reuse decoy names
+	inDecoy   int               // nesting depth of decoys being generated
+	listNames []string          // names bound to a list tail
 	// tuning
 	pAny, pBind, pOr, pNot float64
 	stats                  map[string]int
@@ -76,6 +79,7 @@ func (g *gen) fresh() string {
 			// what the failed decoy bound it to is gone
 			delete(g.canon, n)
 			g.nilNames = slices.DeleteFunc(g.nilNames, func(x string) bool { return x == n })
+			g.listNames = slices.DeleteFunc(g.listNames, func(x string) bool { return x == n })
 			return n
 		}
 	}
@@ -197,6 +201,30 @@ func (g *gen) decorate(n *pnode, lvl int) *pnode {
 			return &pnode{kind: "bind", name: name}
 		}
 	}
+	// inside a decoy (which fails anyway): recall a name across kinds — a name bound to a
+	// node at a list position, a name bound to a list tail at a node position. The recall
+	// must succeed only for a one-element list whose element equals the node.
+	if g.inDecoy > 0 && g.rng.Float64() < 0.12 {
+		var cands []string
+		if n.kind == "list" {
+			for name := range g.canon {
+				if g.bound[name] {
+					cands = append(cands, name)
+				}
+			}
+		} else if n.kind == "node" {
+			for _, name := range g.listNames {
+				if g.bound[name] {
+					cands = append(cands, name)
+				}
+			}
+		}
+		if len(cands) > 0 {
+			sort.Strings(cands)
+			g.stats["cross-kind-recall"]++
+			return &pnode{kind: "bind", name: cands[g.rng.IntN(len(cands))]}
+		}
+	}
 	switch n.kind {
 	case "str", "nil", "any":
 		if n.kind == "nil" && r < 0.3 && !g.full() {
@@ -272,6 +300,7 @@ func (g *gen) descend(n *pnode, lvl int) *pnode {
 			c.kids = c.kids[:cut]
 			name := g.fresh()
 			g.bound[name] = true
+			g.listNames = append(g.listNames, name)
 			c.tail = &pnode{kind: "bind", name: name}
 			g.stats["bound-tail"]++
 		}
@@ -285,8 +314,8 @@ func (g *gen) decoy(n *pnode, lvl int) *pnode {
 	for k := range g.bound {
 		saved[k] = true
 	}
-	before := g.nname
-	_ = before
+	g.inDecoy++
+	defer func() { g.inDecoy-- }()
 	var d *pnode
 	switch n.kind {
 	case "node":
